@@ -123,7 +123,31 @@ pub fn pair_case(c: &PairCase, obs: &mut Obs) -> PResult {
         t => crate::engine::fail("INFRA/harness_panic", format!("unknown type {t}")),
     }
 }
+/// NaN as a probe (index 7 of the float chains): NaN is a value of the element type and a member of no interval,
+/// whichever view is used
+fn probe_nan(chain: &[f64], c: &ProbeCase, obs: &mut Obs) -> PResult {
+    let ia: Interval<f64> = c.a.build(chain);
+    let k = c.a.kind_name();
+    obs.evals(2);
+    obs.class(&format!("probe/{k}/nan"));
+    obs.nontrivial(&(&c.ty, c.a, c.x, "probe-nan"));
+    for x in [f64::NAN, -f64::NAN] {
+        let got = ia.contains(&x);
+        ensure!(!got, format!("C07/contains/{k}/nan"), "{ia:?}.contains(NaN) = true: NaN is a member of no interval");
+        let rb = <Interval<f64> as RangeBounds<f64>>::contains(&ia, &x);
+        ensure!(rb == got, format!("C07/rangebounds_contains/{k}/nan"), "RangeBounds::contains({ia:?}, NaN) = {rb}, Interval::contains = {got}");
+    }
+    Ok(())
+}
+
 pub fn probe_case(c: &ProbeCase, obs: &mut Obs) -> PResult {
+    if c.x == 7 {
+        return match c.ty.as_str() {
+            "f64" => probe_nan(&chain_f64(false), c, obs),
+            "f64inf" => probe_nan(&chain_f64inf(false), c, obs),
+            _ => Ok(()),
+        };
+    }
     match c.ty.as_str() {
         "i32" => probe_generic(&chain_i32(), &chain_i32(), c, obs),
         "u8" => probe_generic(&chain_u8(), &chain_u8(), c, obs),
@@ -205,7 +229,10 @@ fn wide_generic<T: PartialOrd + Copy + Debug>(ka: u8, a: (T, T), kb: u8, b: (T, 
     let got = ia.includes(&ib);
     ensure!(got == want_inc, format!("C07/includes/{kp}"), "{ia:?}.includes({ib:?}) = {got}, sets say {want_inc}");
     ensure!(ib.is_included_in(&ia) == want_inc, format!("C07/is_included_in/{kp}"), "{ib:?}.is_included_in({ia:?}) != {want_inc}");
-    let want_c = ma.lo.map(|l| l <= x).unwrap_or(true) && ma.hi.map(|h| x <= h).unwrap_or(true);
+    // (for a NaN probe both comparisons are false: NaN is a member of no interval)
+    #[allow(clippy::eq_op)]
+    let unordered = x != x;
+    let want_c = !unordered && ma.lo.map(|l| l <= x).unwrap_or(true) && ma.hi.map(|h| x <= h).unwrap_or(true);
     let got = ia.contains(&x);
     let k = ["two", "upper", "lower"][ka as usize];
     ensure!(got == want_c, format!("C07/contains/{k}"), "{ia:?}.contains({x:?}) = {got}, sets say {want_c}");
@@ -251,8 +278,11 @@ pub fn run(run: &mut Run) {
                 }
                 run.case("pair", &PairCase { ty: ty.to_string(), a: *a, b: *b }, pair_case);
             }
-            for x in 0..7 {
+            for x in 0..8 {
                 if ty == "f64inf" && a.kind != 0 {
+                    continue;
+                }
+                if x == 7 && !ty.starts_with("f64") {
                     continue;
                 }
                 run.case("probe", &ProbeCase { ty: ty.to_string(), a: *a, x }, probe_case);
@@ -279,8 +309,15 @@ pub fn run(run: &mut Run) {
         let b = if kb == 0 { b } else { (fin(b.0), fin(b.1)) };
         WideF { ka, a: (X(a.0), X(a.1)), kb, b: (X(b.0), X(b.1)), x: X(x) }
     });
+    // the same with NaN probes mixed in
+    let sfn = (0u8..3, (wide_f64(), wide_f64()), 0u8..3, (wide_f64(), wide_f64()), any::<bool>()).prop_map(move |(ka, a, kb, b, neg)| {
+        let a = if ka == 0 { a } else { (fin(a.0), fin(a.1)) };
+        let b = if kb == 0 { b } else { (fin(b.0), fin(b.1)) };
+        WideF { ka, a: (X(a.0), X(a.1)), kb, b: (X(b.0), X(b.1)), x: X(if neg { -f64::NAN } else { f64::NAN }) }
+    });
+    run.prop("wide_f64_nan_probe", n / 10, sfn, wide_f);
     run.prop("wide_f64", n, sf, wide_f);
-    run.assumptions.push("a one-sided interval is unbounded: its missing side is strictly beyond every value of the element type (DESIGN §3.3); NaN bounds are outside the quantifier".into());
+    run.assumptions.push("a one-sided interval is unbounded: its missing side is strictly beyond every value of the element type (DESIGN §3.3); NaN bounds are outside the quantifier; NaN probes are inside it (a value that is a member of no interval)".into());
 }
 
 pub fn replay(sub: &str, v: &Value, obs: &mut Obs) -> Option<PResult> {
@@ -288,7 +325,7 @@ pub fn replay(sub: &str, v: &Value, obs: &mut Obs) -> Option<PResult> {
         "pair" => pair_case(&de(v), obs),
         "probe" => probe_case(&de(v), obs),
         "wide_i64" => wide_i(&de(v), obs),
-        "wide_f64" => wide_f(&de(v), obs),
+        "wide_f64" | "wide_f64_nan_probe" => wide_f(&de(v), obs),
         _ => return None,
     })
 }
